@@ -60,7 +60,11 @@ def run(ctx):
     upaths = ["/".join(c) for n in range(0, N + 1) for c in itertools.product(USEGS, repeat=n)]
     cases = []     # (kind, args..., program)
     for p in upaths:
+        if not p.startswith("/"):     # ("//..." would be a network-path reference)
+            cases.append((0, ["/" + p], [["push", ["url", "/" + p]]]))          # the same raw path without authority, first
         cases.append((0, ["/" + p], [["push", ["url", "http://h/" + p]]]))
+        if not p.startswith("/"):
+            cases.append((0, ["/" + p], [["push", ["url", "x:/" + p]]]))        # ... and after
         cases.append((0, ["/x/" + p], [["push", ["url", "/x/" + p]]]))          # no authority: kept verbatim
         cases.append((0, ["/y/" + p], [["push", ["url", "x:/y/" + p]]]))
         cases.append((1, ["/" + p], [["push", ["build", "http", "", None, None, "h", None, "/" + p, None, "", "", False]]]))
